@@ -259,3 +259,32 @@ func BenchmarkExec(b *testing.B) {
 		RunOnce(Config{}, nil, body)
 	}
 }
+
+// a plain read racing with an atomic write is reported; atomic vs atomic is not
+func TestMixedAtomicPlainRace(t *testing.T) {
+	body := func(plain bool) func() {
+		return func() {
+			var x uint32
+			var wg WaitGroup
+			wg.Add(2)
+			GoNamed("w", func() { StoreUint32(&x, 1); wg.Done() })
+			GoNamed("r", func() {
+				if plain {
+					_ = *RP(&x)
+				} else {
+					_ = LoadUint32(&x)
+				}
+				wg.Done()
+			})
+			wg.Wait()
+		}
+	}
+	r := Explore(ExploreCfg{Bound: 1, Check: check(func(ex *Exec) string { return "" })}, body(true))
+	if r.Failure == nil || !strings.Contains(r.Failure.Msg, "data race") {
+		t.Fatalf("mixed atomic/plain race not reported: %+v", r)
+	}
+	r = Explore(ExploreCfg{Bound: 1, Check: check(func(ex *Exec) string { return "" })}, body(false))
+	if r.Failure != nil {
+		t.Fatalf("atomic/atomic wrongly reported: %v", r.Failure.Msg)
+	}
+}
